@@ -189,6 +189,10 @@ func Bound(name string, def int) int {
 }
 
 func Tag(t string)          {}
+
+// Hook registers a Go function that an environment stub of the symbolic
+// executor calls back (no effect natively).
+func Hook(name string, fn interface{}) {}
 func MapOrder(mode int)     {}
 func Preemptions(n int)     {}
 func TickLimit(n int)       {}
